@@ -530,6 +530,40 @@ Definition aget (file : bytes) (a : aindex) (h : bytes) : gres :=
       end
   end.
 
+(* archiveChunkSource.resolve (archive_chunk_source.go:260, after 002bc81): index lookup of every
+   request, then checkedByteSpan on its data id and (when non-zero) its dictionary id; the first
+   invalid reference is an error.  planReads / fetchBatch therefore only see spans that are
+   non-empty, ascending and inside the data section: their buffers (sized by groupSpans' furthest
+   end) cover every member and no read is empty — the reader goroutines cannot panic. *)
+Fixpoint aresolve (a : aindex) (reqs : list bytes) (acc : list (N * N)) : res (list (N * N)) :=
+  match reqs with
+  | [] => Ok (rev acc)
+  | h :: rest =>
+    bind (afind a h) (fun m =>
+      match m with
+      | None => aresolve a rest acc
+      | Some idx =>
+        let '(dict, data) := nth (N.to_nat idx) (ax_refs a) (0, 0) in
+        match checked_span a data with
+        | None => Err                                                  (* ErrInvalidChunkRange *)
+        | Some sp =>
+          if negb (dict =? 0) then
+            match checked_span a dict with
+            | None => Err                                              (* ErrInvalidDictionaryRange *)
+            | Some _ => aresolve a rest (sp :: acc)
+            end
+          else aresolve a rest (sp :: acc)
+        end
+      end)
+  end.
+
+(* archiveChunkSource.getMany *)
+Definition aget_many (a : aindex) (reqs : list bytes) : gm :=
+  match aresolve a (sort_by addr_prefix reqs) [] with
+  | Panic => GMCrash
+  | _ => GMNoCrash
+  end.
+
 (* archiveReader.iterate (archive_reader.go:692).  IAny: a dictionary span (zstd) or an allocation
    the model abstains on was reached. *)
 Inductive ires := IOk (l : list (bytes * bytes)) | IErr | IPanic | IAny.
